@@ -1,0 +1,64 @@
+//! Verification hooks: public views of crate-private items. Compiled only with
+//! the `verif` feature; nothing here is used by the library itself.
+
+use std::ops::Range;
+
+use chrono::{NaiveDate, NaiveDateTime};
+use opening_hours_syntax::extended_time::ExtendedTime;
+use opening_hours_syntax::rules::time as ts;
+
+use crate::localization::Localize;
+use crate::schedule::{Schedule, TimeRange};
+use crate::Context;
+
+pub use crate::filter::date_filter::verif_hooks as date_filter;
+
+pub const DATE_START: NaiveDateTime = crate::opening_hours::DATE_START;
+pub const DATE_END: NaiveDateTime = crate::opening_hours::DATE_END;
+
+pub fn easter(year: i32) -> Option<NaiveDate> {
+    crate::utils::dates::easter(year)
+}
+
+pub fn count_days_in_month(date: NaiveDate) -> u8 {
+    crate::utils::dates::count_days_in_month(date)
+}
+
+/// The raw ranges of a schedule (before hole filling).
+pub fn schedule_inner(schedule: &Schedule) -> &[TimeRange] {
+    &schedule.inner
+}
+
+pub fn time_selector_intervals_at<L: Localize>(
+    ctx: &Context<L>,
+    time_selector: &ts::TimeSelector,
+    date: NaiveDate,
+) -> Vec<Range<ExtendedTime>> {
+    crate::filter::time_filter::time_selector_intervals_at(ctx, time_selector, date).collect()
+}
+
+pub fn time_selector_intervals_at_next_day<L: Localize>(
+    ctx: &Context<L>,
+    time_selector: &ts::TimeSelector,
+    date: NaiveDate,
+) -> Vec<Range<ExtendedTime>> {
+    crate::filter::time_filter::time_selector_intervals_at_next_day(ctx, time_selector, date)
+        .collect()
+}
+
+pub fn variable_time_as_naive<L: Localize>(
+    ctx: &Context<L>,
+    time: &ts::VariableTime,
+    date: NaiveDate,
+) -> ExtendedTime {
+    use crate::filter::time_filter::TimeFilter;
+    time.as_naive(ctx, date)
+}
+
+pub fn ranges_union<T: Ord>(ranges: Vec<Range<T>>) -> Vec<Range<T>> {
+    crate::utils::range::ranges_union(ranges).collect()
+}
+
+pub fn range_intersection<T: Ord>(range_1: Range<T>, range_2: Range<T>) -> Option<Range<T>> {
+    crate::utils::range::range_intersection(range_1, range_2)
+}
